@@ -3,6 +3,7 @@ package detectsim
 import (
 	"bufio"
 	"bytes"
+	"github.com/Trisia/randomness/simrt"
 	"io"
 	"os"
 	"sync"
@@ -152,6 +153,21 @@ type valueSource struct {
 
 func (v valueSource) Read(p []byte) (int, error) { return v.dev.Read(p) }
 
+// lockerSource is the simulated device written in the usual thread-safe Go
+// style: a struct that embeds its mutex - so the pointer also is a sync.Locker -
+// and takes it in Read. (The simulator's mutex: a caller blocked on it is
+// parked where the controller sees it.)
+type lockerSource struct {
+	simrt.Mutex
+	dev *SimSource
+}
+
+func (l *lockerSource) Read(p []byte) (int, error) {
+	l.Lock()
+	defer l.Unlock()
+	return l.dev.Read(p)
+}
+
 // seekableSim is the simulated device with a Seek method (a file-like device
 // node): everything the device does - short reads, faults - stays as it is.
 type seekableSim struct{ dev *SimSource }
@@ -209,6 +225,8 @@ func buildCarrier(c *RunConfig, st *Stream, sim *SimSource, prefix []byte) (*car
 		return &carrier{src: valueSource{dev: sim, tags: []string{"rng0"}}, consumed: simConsumed, cleanup: func() {}}, nil
 	case "seeker":
 		return &carrier{src: seekableSim{dev: sim}, consumed: simConsumed, cleanup: func() {}}, nil
+	case "locker":
+		return &carrier{src: &lockerSource{dev: sim}, consumed: simConsumed, cleanup: func() {}}, nil
 	}
 	if st.Len() < 0 {
 		return nil, nil
